@@ -47,6 +47,8 @@ def run(ctx):
     for n in (1425, 1500):
         g = amlgen.G(rng)
         progs.append(amlgen.prog(g, {"t": "ResourceTemplate", "ch": [q8(g) for _ in range(n)]}, tag="template/%d" % n))
+    progs += amlgen.many_children(rng, th)                            # breadth (thousands of children) and depth (chains of 8..40)
+    progs += [amlgen.with_equal_children(amlgen.random_tree(rng, rng.choice([2, 3, 4])), rng) for _ in range(2000 if th else 300)]   # equal siblings / operands
     # the boundary objects again as children of a container: a length inside another length
     progs += [amlgen.wrapped(p, i) for i, p in enumerate(progs) if p.get("tag", "").split("/")[0] in amlgen.FRAMED + ["template", "named_template"] and not p.get("summary")][::1 if th else 2]
     ctx.samples = [progs[0], progs[len(progs) // 2], progs[-1]]
